@@ -3,7 +3,7 @@ from __future__ import annotations
 import argparse
 import json
 import logging
-import shutil
+import os
 import tempfile
 import zipfile
 from pathlib import Path
@@ -74,10 +74,13 @@ def _update_file(
         )
         return None
 
-    with tempfile.TemporaryDirectory() as tmp_dir:
-        tmp_output_file = Path(tmp_dir) / f"{output_file}.tmp"
+    # Write next to the destination and atomically replace it, so that the
+    # destination never holds a partial file, whatever filesystem TMPDIR is on
+    output_file = Path(output_file)
+    with tempfile.TemporaryDirectory(dir=output_file.parent) as tmp_dir:
+        tmp_output_file = Path(tmp_dir) / f"{output_file.name}.tmp"
         dump(input_model, tmp_output_file)
-        shutil.move(str(tmp_output_file), str(output_file))
+        os.replace(tmp_output_file, output_file)
     logger.info(f"Updated skops file written to {output_file}")
 
 
